@@ -423,7 +423,9 @@ MANIFEST = {
     "technique": "Coq inductive invariant over the session-engine model (all API ops, arbitrary arguments; source facts and key maps "
                  "regenerated from the source) + extracted-model/API correspondence + the predicate evaluated on every "
                  "implementation observation",
-    "text": "Properties_C02.v proves that after every finite sequence of API calls (keys with arbitrary codes and masks, set_input, "
+    "text": "Properties_C02.v proves that after every finite sequence of API calls (for ANY chain over speller, punctuator, selector, "
+            "navigator, editor, key_binder and - round 4 - ascii_composer / ascii_segmentor with every mode-switch style, the tap window "
+            "on any clock and Caps Lock handling; keys with arbitrary codes and masks, set_input, "
             "set_caret_pos beyond the end, select/highlight/delete by arbitrary index, paging, options, commit, clear) everything a "
             "client can read is well-formed: caret <= |input|; not composing implies no input, preedit or menu; 0 <= sel_start <= "
             "sel_end <= length and 0 <= cursor <= length; a reported menu has 0 <= highlighted < candidates on the page <= page size "
